@@ -1,7 +1,8 @@
 // C13, well-kinded compositions at the edges of the kind rules (outside the generated zoo):
 //   PART 0-3  storage whose ARRAY INDEX TYPE is narrower than size_t (array<V, uint8/16/32>) beneath each storage order
 //             (strided, morton<true>, morton<false>, hilbert): the layer above must produce that index type;
-//   PART 4    stacks whose view state is EXACTLY the 256 bytes the library allows (and 240): accepted, whole API.
+//   PART 4    stacks whose view state is EXACTLY the 256 bytes the library allows (and 240): accepted, whole API;
+//   PART 5    INTEGER-valued array storage beneath each storage order.
 // Every part runs the field API (construct, view, at, write, copy, move, copy-/move-assign, configuration, dump, load,
 // conversion where the family has one) with value checks.  One translation unit per part: a compile failure is that part's.
 #include <cstdint>
@@ -125,6 +126,72 @@ static void narrow(const std::size_t * extv)
 }
 #endif
 
+#if PART == 5
+// INTEGER-valued array storage (array<int2>, array<uint1>, array<long3>): a well-kinded stack like any other.  Dumping it
+// is declared (write_binary exists for every array); whether an integer payload can be written is a run-time matter:
+// an exception is an answer, a translation unit that stops compiling is not.
+template <typename S, std::size_t M, int O>
+static void integer_array()
+{
+    using ARR = cb::array<cv::vector_d<S, M>>;
+    using B = std::conditional_t<O == 0, cb::strided<cv::size2, ARR>, std::conditional_t<O == 1, cb::morton<cv::size2, ARR>, cb::hilbert<cv::size2, ARR>>>;
+    using F = covfie::field<B>;
+    const std::string nm = std::string(O == 0 ? "strided" : O == 1 ? "morton" : "hilbert") + "<size2,array<" + vh::tn<S>() + "," + std::to_string(M) + ">>";
+    if (!vh::selected(nm)) return;
+    vh::set_case("%s", nm.c_str());
+    const std::size_t ex = 3, ey = 5, len = O == 0 ? 15 : 64;
+    auto value = [](std::size_t x, std::size_t y, std::size_t j) { return (S)(100 * x + 10 * y + j + 1); };
+    auto expect = [&](const F & f, const char * what) {
+        typename F::view_t v(f);
+        for (std::size_t x = 0; x < ex; ++x)
+            for (std::size_t y = 0; y < ey; ++y)
+                for (std::size_t j = 0; j < M; ++j) {
+                    vh::ev();
+                    if (v.at(x, y)[j] != value(x, y, j)) {
+                        vh::viol(std::string("integer-array:") + what, nm + ": cell (" + std::to_string(x) + "," + std::to_string(y) + ") differs after " + what);
+                        return;
+                    }
+                }
+    };
+    F f(covfie::make_parameter_pack(typename B::configuration_t{ex, ey}, typename ARR::configuration_t{len}));
+    {
+        typename F::view_t v(f);
+        for (std::size_t x = 0; x < ex; ++x)
+            for (std::size_t y = 0; y < ey; ++y)
+                for (std::size_t j = 0; j < M; ++j) v.at(x, y)[j] = value(x, y, j);
+    }
+    expect(f, "construct+write");
+    F g(f);
+    expect(g, "copy");
+    F h(std::move(g));
+    expect(h, "move");
+    F a(covfie::make_parameter_pack(typename B::configuration_t{2ul, 2ul}, typename ARR::configuration_t{O == 0 ? 4ul : 4ul}));
+    a = f;
+    expect(a, "copy-assign");
+    a = std::move(h);
+    expect(a, "move-assign");
+    if constexpr (O != 0) {
+        covfie::field<cb::strided<cv::size2, ARR>> s(f);
+        F back(s);
+        expect(back, "convert");
+    }
+    // dump: completes (then the bytes load back) or throws a std::exception -- both are answers
+    try {
+        std::stringstream ss(std::ios::in | std::ios::out | std::ios::binary);
+        f.dump(ss);
+        vh::stat("integer_array_dumps_written");
+        F r(static_cast<std::istream &>(ss));
+        expect(r, "dump+load");
+    } catch (const std::exception &) {
+        vh::stat("integer_array_dumps_refused_with_an_exception");
+    }
+    expect(f, "original after all members");
+    vh::nontrivial(vh::fnv(nm));
+    vh::stat("integer_array_stacks");
+    vh::sample("integer-array", nm + ": whole API; dump answered at run time", 3);
+}
+#endif
+
 #if PART == 4
 // a stack answering a constant everywhere; VIEW bytes pinned by a static_assert on the layer's own view state type
 template <typename B, std::size_t BYTES, typename MAKE>
@@ -189,6 +256,14 @@ int main(int argc, char ** argv)
     narrow<PART, std::size_t, std::uint8_t, 2, 1>(e2b);
     narrow<PART, unsigned char, std::uint8_t, 1, 2>(e1);
 #endif
+#endif
+#if PART == 5
+    integer_array<int, 2, 0>();
+    integer_array<unsigned, 1, 0>();
+    integer_array<long, 3, 0>();
+    integer_array<int, 1, 1>();
+    integer_array<unsigned long, 2, 1>();
+    integer_array<int, 3, 2>();
 #endif
 #if PART == 4
     {
